@@ -11,12 +11,13 @@ package main
 //   - a workload that does not finish within the watchdog is a hang.
 
 import (
-	"path/filepath"
 	"bufio"
 	"fmt"
 	"io"
 	"math/rand"
 	"os"
+	"path/filepath"
+	"runtime"
 	"sync"
 	"time"
 
@@ -41,6 +42,12 @@ func runConc(w *bufio.Writer, id int, seed int64) (fails int) {
 		c.Cons[i] = string(fl)
 	}
 	c.Cons[shape.FK] = "1100"
+	// NV.Q tags every object with the goroutine that owns it (no case constraint; indexed in most workloads):
+	// a non-unique key with many duplicates, whose matched range moves whenever another goroutine writes
+	c.Cons[shape.FNVQ] = "0000"
+	if r.Intn(4) != 0 {
+		c.Cons[shape.FNVQ] = "1000"
+	}
 	if r.Intn(3) == 0 {
 		c.Async = true
 		c.Thr = 1 + r.Intn(6)
@@ -93,6 +100,7 @@ func runConc(w *bufio.Writer, id int, seed int64) (fails int) {
 			rr := rand.New(rand.NewSource(seed))
 			my := owns[g].live
 			keyN := 0
+			ownQ := fmt.Sprintf("own-g%d", g)
 			for k := 0; k < 40; k++ {
 				switch x := rr.Intn(100); {
 				case x < 30: // insert a new own object
@@ -100,6 +108,7 @@ func runConc(w *bufio.Writer, id int, seed int64) (fails int) {
 					rec.TM, rec.VM = 0, 0
 					keyN++
 					rec.K = fmt.Sprintf("g%d-%d", g, keyN)
+					rec.NV.Q = ownQ
 					if err := db.InsertOrUpdate(rec); err != nil {
 						mu.Lock()
 						fail("goroutine %d: insert of an own object failed: %v", g, err)
@@ -113,6 +122,7 @@ func runConc(w *bufio.Writer, id int, seed int64) (fails int) {
 						rec := flatToRec(genRec(rr, c))
 						rec.TM, rec.VM = 0, 0
 						rec.K = old.K
+						rec.NV.Q = ownQ
 						rec.Initialize(u)
 						if err := db.InsertOrUpdate(rec); err != nil {
 							mu.Lock()
@@ -159,6 +169,7 @@ func runConc(w *bufio.Writer, id int, seed int64) (fails int) {
 					rec := flatToRec(genRec(rr, c))
 					rec.TM, rec.VM = 0, 0
 					rec.K = fmt.Sprintf("round-%d", k/3) // every goroutine reaches round k/3 at about the same time
+					rec.NV.Q = "shared"
 					if err := db.InsertOrUpdate(rec); err == nil {
 						mu.Lock()
 						if prev, dup := sharedWin[rec.K]; dup {
@@ -174,9 +185,11 @@ func runConc(w *bufio.Writer, id int, seed int64) (fails int) {
 					own.TM, own.VM = 0, 9 // slow Validate: the batch stays long between its phases
 					keyN++
 					own.K = fmt.Sprintf("g%d-%d", g, keyN)
+					own.NV.Q = ownQ
 					sh := flatToRec(genRec(rr, c))
 					sh.TM, sh.VM = 0, 0
 					sh.K = fmt.Sprintf("round-%d", k/3)
+					sh.NV.Q = "shared"
 					n, err := db.InsertOrUpdateMany(own, sh)
 					if err != nil {
 						if n != 0 {
@@ -212,7 +225,33 @@ func runConc(w *bufio.Writer, id int, seed int64) (fails int) {
 					s = s.Or(shape.Paths[f3], "=", keyValue(genRec(rr, c).K[f3], f3, false))
 					s.Len()
 					s.Limit(3).Collect() // errors are legitimate (objects deleted meanwhile)
-				case x < 86:
+				case x < 83:
+					// a KEPT search value on the goroutine's own tag, used after the others have written: only this
+					// goroutine writes objects carrying the tag, so in every sequential order of the calls the value
+					// denotes exactly its own live objects, whatever entries the others move in the index meanwhile
+					s := db.Search(&shape.Rec{}, "NV.Q", "=", ownQ)
+					time.Sleep(time.Duration(rr.Intn(3)) * time.Millisecond)
+					runtime.Gosched()
+					n := s.Len()
+					objs, err := s.Collect()
+					mu.Lock()
+					if err != nil {
+						fail("goroutine %d: kept search on its own tag failed: %v", g, err)
+					} else if n != len(my) || len(objs) != len(my) {
+						fail("not linearizable: goroutine %d: a kept search on its own tag %q denotes %d objects (Len %d), it owns %d", g, ownQ, len(objs), n, len(my))
+					} else {
+						for _, o := range objs {
+							if _, ok := my[o.UUID()]; !ok || o.(*shape.Rec).NV.Q != ownQ {
+								fail("not linearizable: goroutine %d: a kept search on its own tag %q returned object %s tagged %q", g, ownQ, o.UUID(), o.(*shape.Rec).NV.Q)
+								break
+							}
+						}
+					}
+					mu.Unlock()
+				case x < 85:
+					var tgt []*shape.Rec
+					db.AssignAll(&shape.Rec{}, &tgt)
+				case x < 87:
 					db.All(&shape.Rec{})
 				case x < 90:
 					db.Count(&shape.Rec{})
